@@ -108,6 +108,8 @@ def observed_ops(rf, sp, kind, samples=True, readonly=True, post=True, cap=None,
     if poison is not None:
         ops.append(["poison", poison])
     ops += [["setup"], ["observe"]]
+    if readonly and rf.chance(0.4):
+        ops += [["is_complete"], ["observe"]]
     if samples and rf.chance(0.3):
         ops += [["sample"], ["observe"]]
         if rf.chance(0.3):
